@@ -7,7 +7,8 @@ package hooks
 // take the process down"), URL precedence and defaults, timeout default.
 //
 // Real code: all of the above, newWebhookExecutor, cache.New over zcache.
-// Modelled: metrics.InstrumentClientWithConstLabels (returns the client).
+// Modelled inside pkg/metrics: getOrCreateMetrics (no prometheus collectors) and
+// the promhttp round-tripper decorators (pass-through); the rest is real.
 
 import (
 	"net/http"
